@@ -60,3 +60,20 @@ Fixpoint types_after (s : schema) (ops : list sop) : schema :=
   | SLoad _ _ _ _ :: r => types_after s r
   | SCreate ti :: r => types_after (create_type s ti) r
   end.
+
+(* (4) fourth wave: the type system of the CAS that load returns.  The reader builds it as Cas(typesystem=typesystem,
+   lenient=lenient) (xmi.py:295) with the very object it looked the element types up in; Cas.__init__ (cas.py:226) keeps
+   `typesystem if typesystem else TypeSystem()`.  A TypeSystem object has neither __bool__ nor __len__, so it is true
+   whatever it defines - also when it defines built-in types only (every user type deleted, made with
+   add_document_annotation_type=False) -; only None is replaced by a default type system, and load_cas_from_xmi has
+   replaced None already (xmi.py:89-90).  Every handle shares that object (Cas._copy, cas.py:839-846). *)
+Definition cas_init_ts (given : option schema) (default : schema) : schema :=
+  match given with Some s => s | None => default end.
+Definition loaded_ts (supplied default : schema) : schema := cas_init_ts (Some supplied) default.
+(* what a default TypeSystem() defines besides the built-in types *)
+Definition default_extra : schema :=
+  [mkTi "uima.tcas.DocumentAnnotation" ["uima.tcas.DocumentAnnotation"; "uima.tcas.Annotation"; "uima.cas.AnnotationBase"; "uima.cas.TOP"]
+        [mkFd "language" "language" "uima.cas.String" None false]].
+(* Cas.add of a structure of type tn through the handle reached from the loaded CAS by a chain of get_view / create_view *)
+Definition loaded_add (supplied default : schema) (c : lcas) (path : list string) (tn : tname) : res unit :=
+  handle_add (loaded_ts supplied default) (derive (cas_handle c) path) tn.
